@@ -34,6 +34,11 @@ CONSTANTS Buf,        \* firstPacketSize (scaled)
           Downs,      \* target reachability: "up", "refuse", "closeatonce"
           AuthClasses,\* what a complete small TLS record can be
           HiddenClasses, \* what a complete short HTTP request can be
+          PortCfgs,   \* redirect-port configurations: records [cfg, lp, first]
+                      \*   cfg   "fixed" = RedirAddr names a port (P), "none" = it does not: the target port is the
+                      \*           port the peer connected to (dispatcher.go:136-139, conn.LocalAddr)
+                      \*   lp    "A" | "B": the listener (bind port) this connection arrived on; one State serves both
+                      \*   first "none" | "A" | "B": the listener of an EARLIER redirected connection of the same State
           AllCuts,    \* TRUE: every cut position; FALSE: anchors and their neighbours only
           Dev         \* deviations (negative configurations)
 
@@ -121,7 +126,7 @@ Anchors(c) ==
 (* ------------------------------ environment ------------------------------ *)
 
 Init ==
-  /\ case \in [c : Cases, script : Scripts, down : Downs]
+  /\ case \in [c : Cases, script : Scripts, down : Downs, port : PortCfgs]
   /\ sent = 0 /\ nchunks = 0 /\ peerClosed = FALSE /\ timedOut = FALSE
   /\ phase = "read" /\ consumed = 0 /\ outcome = "none" /\ closedIncomplete = FALSE
   /\ toTarget = <<>> /\ fwd = 0 /\ tgtOut = 0 /\ toPeer = <<>>
@@ -264,6 +269,14 @@ Next == ServerNext \/ EnvNext
 Spec == Init /\ [][Next]_vars
 
 \* nothing left to do for the server and the target (the guards of ServerNext, spelled out: cheaper than ENABLED)
+\* the port goWeb dials.  A function of the configuration alone in the design: what an earlier connection did
+\* does not matter.  Deviation PortCached: the first redirected connection's port is kept in the shared State.
+DialPort(p) ==
+  IF p.cfg = "fixed" THEN "P"
+  ELSE IF "PortCached" \in Dev /\ p.first # "none" THEN p.first
+  ELSE p.lp
+DialTo == IF outcome \in {"redirect", "noredirect"} THEN DialPort(case.port) ELSE "none"
+
 Quiescent == ~(ReadG \/ GiveUpG \/ DecideG \/ CopyUpG \/ CopyUpEOFG \/ TargetActG \/ CopyDownG \/ CopyDownEOFG)
 
 -----------------------------------------------------------------------------
@@ -296,6 +309,10 @@ AllForwarded ==
   (Quiescent /\ ~Authenticated(C) /\ CompleteFaithful(C, sent) /\ ~closedIncomplete /\ case.down = "up")
     => /\ outcome = "redirect"
        /\ (~peerClosed /\ ~tgtClosed => Len(toTarget) = sent /\ Len(toPeer) = tgtOut /\ ~srvClosedPeer)
+
+\* "relay to the configured redirect target": the configured port, or - RedirAddr without a port - the port this
+\* peer connected to, whatever other connections of the same server did before
+RightTarget == DialTo \in {"none", IF case.port.cfg = "fixed" THEN "P" ELSE case.port.lp}
 
 \* not part of the statement: the reader decides exactly at the faithful stop position
 DecidesAtStop == outcome \in {"redirect", "accept", "hang", "noredirect"} => consumed = Stop(C) /\ CompleteFaithful(C, consumed)
